@@ -128,6 +128,12 @@ template<class T> struct QuantF {
   static bool max_size(const SK&, size_t&) { return false; }
 };
 
+// min / max are determined only up to the comparator's equivalence (REQ re-derives them from the items of a one-level image):
+// for floating types -0.0 and +0.0 are the same extreme; both sides print +0.0
+template<class T> T canon_extreme(const T& v) { return v; }
+template<> float canon_extreme<float>(const float& v) { return v == 0.0f ? 0.0f : v; }
+template<> double canon_extreme<double>(const double& v) { return v == 0.0 ? 0.0 : v; }
+
 // canonical API content; wsum = sum of the weights the iterator reported
 template<class F, class T> std::string content(const typename F::SK& s, uint64_t* wsum = nullptr) {
   std::ostringstream o;
@@ -136,7 +142,7 @@ template<class F, class T> std::string content(const typename F::SK& s, uint64_t
   if (s.is_empty()) {
     o << " min=none max=none" << F::extra(s) << " items=none";
   } else {
-    o << " min=" << It<T>::hex(s.get_min_item()) << " max=" << It<T>::hex(s.get_max_item()) << F::extra(s) << " items=";
+    o << " min=" << It<T>::hex(canon_extreme<T>(s.get_min_item())) << " max=" << It<T>::hex(canon_extreme<T>(s.get_max_item())) << F::extra(s) << " items=";
     bool first = true;
     size_t cnt = 0;
     for (auto it = s.begin(); it != s.end(); ++it) {
@@ -157,7 +163,7 @@ template<class F, class T> std::string content(const typename F::SK& s, uint64_t
 template<class F, class T> std::string observables(const typename F::SK& s) {
   std::ostringstream o;
   o << s.get_n() << " " << s.get_k() << " " << s.is_estimation_mode() << " " << s.get_num_retained() << F::hra(s);
-  if (!s.is_empty()) o << " " << It<T>::hex(s.get_min_item()) << " " << It<T>::hex(s.get_max_item());
+  if (!s.is_empty()) o << " " << It<T>::hex(canon_extreme<T>(s.get_min_item())) << " " << It<T>::hex(canon_extreme<T>(s.get_max_item()));
   return o.str();
 }
 
